@@ -8,12 +8,13 @@
 --    96-bit reduction tail is correct modulo p, returns a 64-bit word, can return a NON-canonical
 --    word (witness), and `add_constants` brings any 64-bit word back into [0, p).
 --    NOT proved: the plumbing of `mds_multiply` itself (`mds_multiply_glue`, a `def : Prop`).
---  * (2) S-boxes: only the closed computation `alpha * inv_alpha = 1 (mod p - 1)` for the three
---    instances.  NOT proved: `exp7 x = x^7`, "the chain computes x^INV_ALPHA", "it inverts the
---    S-box" (these need the field-morphism facts of C07 and Fermat; stated as `def : Prop`).
+--  * (2) S-boxes (on top of C07's `val` / `Inv`): `exp7` / `cube` denote `x^7` / `x^3`, the inverse
+--    S-box chains denote `x^INV_ALPHA`, `alpha * inv_alpha = 1 (mod p - 1)`, and by Fermat the two
+--    S-boxes invert each other on every residue, zero included, for all three instances.
 --  * (3) sponge: totality of byte hashing; the byte encoding is injective; `hash` is
 --    `hash_elements` of the encoding; `merge = hash_elements (a ++ b)` for Rp64_256 / Rp62_248 on
---    canonical raw words; the `merge_with_int` residue encoding is injective; extension elements
+--    canonical raw words; `merge_with_int`: different u64 integers give pre-permutation states that
+--    differ as residues (all three instances, on the state the model builds); extension elements
 --    hash as their flattening (by definition of the model: the cast is modelled, not verified).
 import Winter.Model.Rescue
 import WinterProofs.Lemmas.C11MdsCommon
@@ -21,6 +22,8 @@ import WinterProofs.Lemmas.C11Mds12
 import WinterProofs.Lemmas.C11Mds8
 import WinterProofs.Lemmas.C11Sponge
 import WinterProofs.Lemmas.C11Misc
+import WinterProofs.Lemmas.C11Sbox
+import WinterProofs.Lemmas.C11MergeInt
 
 namespace WinterProofs.C11
 open Gen Model Model.Rescue
@@ -116,10 +119,47 @@ theorem sbox_exponents_inverse :
     (Gen.Rp62.ALPHA * Gen.Rp62.INV_ALPHA) % (Gen.F62.M - 1) = 1 :=
   ⟨Misc.alpha_inv_64, Misc.alpha_inv_jive, Misc.alpha_inv_62⟩
 
-/-- FULL statement, NOT proved: under C07's hypotheses (`p` prime, `val` a ring morphism from raw
-    words) the inverse S-box chain inverts the S-box.  Only `sbox_exponents_inverse` is proved. -/
-def inv_sbox_inverts_sbox (val : Nat → Nat) (p : Nat) : Prop :=
-  ∀ x, val (F64.invSbox (Gen.F64.exp7 x)) = val x % p
+/-- 64-bit instances: the S-box denotes the seventh power, the inverse S-box chain the power
+    `INV_ALPHA`, on every valid raw word -/
+theorem sbox64_denotes_powers (x : Nat) (hx : F64Z.Inv x) :
+    (F64Z.Inv (Gen.F64.exp7 x) ∧ F64Z.val (Gen.F64.exp7 x) = F64Z.val x ^ Gen.Rp64.ALPHA) ∧
+    (F64Z.Inv (Model.Rescue.F64.invSbox x) ∧
+      F64Z.val (Model.Rescue.F64.invSbox x) = F64Z.val x ^ Gen.Rp64.INV_ALPHA) :=
+  ⟨Sbox.F64.exp7_pow x hx, Sbox.F64.invSbox_pow x hx⟩
+
+/-- 64-bit instances (Rp64_256 and RpJive64_256 share the code and the exponents): the inverse
+    S-box inverts the S-box, and conversely, on EVERY residue (zero included) -/
+theorem sbox64_inverse (x : Nat) (hx : F64Z.Inv x) :
+    (F64Z.Inv (Model.Rescue.F64.invSbox (Gen.F64.exp7 x)) ∧
+      F64Z.val (Model.Rescue.F64.invSbox (Gen.F64.exp7 x)) = F64Z.val x) ∧
+    (F64Z.Inv (Gen.F64.exp7 (Model.Rescue.F64.invSbox x)) ∧
+      F64Z.val (Gen.F64.exp7 (Model.Rescue.F64.invSbox x)) = F64Z.val x) :=
+  ⟨Sbox.F64.inv_after_sbox x hx, Sbox.F64.sbox_after_inv x hx⟩
+
+theorem jive_uses_the_same_exponents :
+    Gen.Rp64Jive.INV_ALPHA = Gen.Rp64.INV_ALPHA ∧ Gen.Rp64Jive.ALPHA = Gen.Rp64.ALPHA :=
+  Sbox.F64.inv_alpha_jive
+
+-- non-trivial instances of the hypothesis: zero and the largest canonical word
+example : F64Z.Inv 0 ∧ F64Z.Inv 18446744069414584320 := by unfold F64Z.Inv; decide
+
+/-- 62-bit instance: cube and the chain for `INV_ALPHA`, on every valid raw word (`< 2p`) -/
+theorem sbox62_denotes_powers (x : Nat) (hx : F62Z.Inv x) :
+    (F62Z.Inv (Model.Rescue.F62.cube x) ∧ F62Z.val (Model.Rescue.F62.cube x) = F62Z.val x ^ Gen.Rp62.ALPHA) ∧
+    (F62Z.Inv (Model.Rescue.F62.invSbox x) ∧
+      F62Z.val (Model.Rescue.F62.invSbox x) = F62Z.val x ^ Gen.Rp62.INV_ALPHA) :=
+  ⟨Sbox.F62.cube_pow x hx, Sbox.F62.invSbox_pow x hx⟩
+
+theorem sbox62_inverse (x : Nat) (hx : F62Z.Inv x) :
+    (F62Z.Inv (Model.Rescue.F62.invSbox (Model.Rescue.F62.cube x)) ∧
+      F62Z.val (Model.Rescue.F62.invSbox (Model.Rescue.F62.cube x)) = F62Z.val x) ∧
+    (F62Z.Inv (Model.Rescue.F62.cube (Model.Rescue.F62.invSbox x)) ∧
+      F62Z.val (Model.Rescue.F62.cube (Model.Rescue.F62.invSbox x)) = F62Z.val x) :=
+  ⟨Sbox.F62.inv_after_sbox x hx, Sbox.F62.sbox_after_inv x hx⟩
+
+-- both representatives of zero, and a non-normalised word
+example : F62Z.Inv 0 ∧ F62Z.Inv 4611624995532046337 ∧ F62Z.Inv 9223249991064092673 := by
+  unfold F62Z.Inv; decide
 
 /-! ## (3) Sponge -/
 
@@ -161,6 +201,24 @@ theorem merge_is_hash_elements_rp62 (a0 a1 a2 a3 b0 b1 b2 b3 : Nat)
 theorem merge_with_int_encoding_injective (M v v' : Nat)
     (h : Misc.intEncodingRes M v = Misc.intEncodingRes M v') : v = v' :=
   Misc.intEncodingRes_injective M v v' h
+
+/-- ... and on the state the code actually builds: for every seed, two different 64-bit integers
+    give pre-permutation states that differ as residues (`new` maps `v` to the residue `v`, C07) -/
+theorem merge_with_int_states_injective (s0 s1 s2 s3 v v' : Nat)
+    (hv : v < 18446744073709551616) (hv' : v' < 18446744073709551616) :
+    ((mergeIntState rp64 [s0, s1, s2, s3] v).map F64Z.val
+        = (mergeIntState rp64 [s0, s1, s2, s3] v').map F64Z.val → v = v') ∧
+    ((mergeIntState rpjive [s0, s1, s2, s3] v).map F64Z.val
+        = (mergeIntState rpjive [s0, s1, s2, s3] v').map F64Z.val → v = v') ∧
+    ((mergeIntState rp62 [s0, s1, s2, s3] v).map F62Z.val
+        = (mergeIntState rp62 [s0, s1, s2, s3] v').map F62Z.val → v = v') :=
+  ⟨MergeInt.rp64_mergeInt_injective s0 s1 s2 s3 v v' hv hv',
+   MergeInt.rpjive_mergeInt_injective s0 s1 s2 s3 v v' hv hv',
+   MergeInt.rp62_mergeInt_injective s0 s1 s2 s3 v v' hv hv'⟩
+
+-- the integers the 2^-32-measure branch is about: p and p + 1 (both >= p, same `div`, residues 0 and 1)
+example : (18446744069414584321 : Nat) < 18446744073709551616 ∧ (18446744069414584322 : Nat) < 18446744073709551616 := by
+  decide
 
 /-- extension elements are hashed as their base-field flattening (definitional in the model) -/
 theorem hash_elements_ext_is_flattening (P : Params) (es : List (List Nat)) :
